@@ -322,8 +322,8 @@ func (s *scheduler) run(cr *concRun, clients []*schedClient, choose func(step in
 type schedProgram struct {
 	name      string
 	versioned bool
-	multi     bool                                               // needs a multi-bucket system
-	auto      bool                                               // front end built with the auto-bucket option
+	multi     bool                                                    // needs a multi-bucket system
+	auto      bool                                                    // front end built with the auto-bucket option
 	build     func(cr *concRun, r *rand.Rand) ([][]schedOp, []string) // runs the set-up (client "0"), returns the clients' operations and the keys of the final snapshot
 }
 
